@@ -187,13 +187,19 @@ def run(ctx):
             ctx.dist['generator-rejected'] += 1
             continue
         e = c.get('impl_enc')
+        case = {'ids': c['ids'], 'seed': c['seed'], 'forced': c['forced'], 'nsub': c['nsub'], 'version': c['version'],
+                'edition': c['edition'], 'compressed': c['compressed']}
+        # the coder side of the property also covers encoding (marker values are CODED with the owner's width /
+        # width+1 and reference -2^width): bits and refusals of the implementation's encoder vs the model's
+        eeq, edetail = P.compare_encode(c)
+        if not eeq:
+            ctx.compare(case, 'impl-encode', 'model-encode', kind='C07-encode-mismatch',
+                        holds=lambda e=e: bool(e) and e[0] == 'ok', extra={'detail': edetail})
         if not e or e[0] != 'ok':
             ctx.dist['encoder-refused'] += 1
             continue
         for f in c['features']:
             ctx.dist[f] += 1
-        case = {'ids': c['ids'], 'seed': c['seed'], 'forced': c['forced'], 'nsub': c['nsub'], 'version': c['version'],
-                'edition': c['edition'], 'compressed': c['compressed']}
         ctx.count((tuple(c['ids']), c['seed'], c['forced']), True)
         eq, detail = P.compare_decode(c)
         i = c.get('impl_dec')
